@@ -84,6 +84,57 @@ func checkC06(r *core.Run, p *core.Program) {
 	r.Rule("C06.retained-bytes", "every builder that keeps a byte slice handed in by an event (in the built value, a field, or a deferred closure) copies it first: the decoders reuse their buffers, so an uncopied slice changes when the next array, identifier or chunk is read.")
 	nRet := checkRetainedBytes(r, p, "C06.retained-bytes", nil)
 	r.Floor("C06.retained-bytes", "event-facing byte-slice parameters in package builder", nRet, 40)
+	// dates and times of day have no Go time equivalent: only timestamps may be converted
+	r.Rule("C06.time-kind", "the untyped builder converts a time value to a Go time.Time only when it is a timestamp (the conversion is guarded by the value's type being TimeTypeTimestamp); a date or a time of day is kept as the compact time value, because as a Go time it would be re-marshaled as a timestamp of another day or year.")
+	if f := findFn(p, "builder", "interfaceBuilder.BuildFromTime"); f == nil {
+		r.Undecided("C06.time-kind", "builder.interfaceBuilder.BuildFromTime")
+	} else {
+		binfo := f.Pkg.TypesInfo
+		converts, guarded := false, false
+		ast.Inspect(f.Decl.Body, func(n ast.Node) bool {
+			ifs, ok := n.(*ast.IfStmt)
+			if !ok {
+				return true
+			}
+			usesGo := false
+			check := func(m ast.Node) {
+				inspectCalls(binfo, m, func(call *ast.CallExpr, c *types.Func) {
+					if c != nil && (c.Name() == "AsGoTime") {
+						usesGo = true
+					}
+				})
+			}
+			if ifs.Init != nil {
+				check(ifs.Init)
+			}
+			check(ifs.Cond)
+			if !usesGo {
+				return true
+			}
+			converts = true
+			ast.Inspect(ifs.Cond, func(m ast.Node) bool {
+				if be, ok := m.(*ast.BinaryExpr); ok && be.Op == token.EQL {
+					for _, side := range []ast.Expr{be.X, be.Y} {
+						if o := objOf(binfo, side); o != nil && o.Name() == "TimeTypeTimestamp" {
+							guarded = true
+						}
+					}
+				}
+				return true
+			})
+			return true
+		})
+		// an unconditional conversion (no if) is also a violation
+		if !converts {
+			inspectCalls(binfo, f.Decl.Body, func(call *ast.CallExpr, c *types.Func) {
+				if c != nil && c.Name() == "AsGoTime" {
+					converts = true
+				}
+			})
+		}
+		r.Check("C06.time-kind", "(*builder.interfaceBuilder).BuildFromTime|Go time only for timestamps", f.Decl.Pos(), !converts || guarded,
+			"every time value that AsGoTime can convert is stored as a Go time.Time: a date comes back as a timestamp (2020-01-02 -> 2020-01-02/00:00:00/Local) and a time of day as a time in year -1")
+	}
 	// per-array state of the builder context: every field modified while an array is assembled is re-initialised by BeginArray
 	perDoc := "per-document state: a new builder context is created for every unmarshal call (C16.fresh-per-call)"
 	checkResetSpec(r, p, "C06.retained-bytes", resetSpec{rel: "builder", typ: "Context", resets: []string{"BeginArray"},
